@@ -8,9 +8,23 @@ from ..gen import traits as tg
 PROP = "C06"
 
 
-def build_case(cid, rng, selector, unimock=False):
+def probe_lines(t, tr_path, cid, maybe_send_rc=False):
+    """Generic-context probe: which bounds does the trait *declare* for the returned future, and its Output."""
+    L = ["fn __c12_probe<__X: %s>(x: &__X) {" % tr_path]
+    for mi, m in enumerate(t.methods):
+        if not m.is_async:
+            continue
+        s1, e1, _d = m.call_args(50, "p%d" % mi)
+        L += ["    " + s for s in s1]
+        L.append("    { let fut = x.%s(%s); ::vrt::fact(\"send:%s\", ::vrt::value_is!(&fut ; ::core::marker::Send)); ::vrt::fact(\"out:%s\", ::vrt::output_type_name(&fut)); }" % (
+            m.name, ", ".join(e1), m.name, m.name))
+    L.append("}")
+    return L
+
+
+def build_case(cid, rng, selector, unimock=False, force_async=False, no_send=False, probes=False):
     dyn = selector in ("ref", "Borrow")
-    want_async = rng.random() < 0.5
+    want_async = force_async or rng.random() < 0.5
     with_at = dyn and want_async
     t = tg.random_trait(rng, "Tr", dyn_safe=dyn, allow_async=(want_async or not dyn), with_async_trait=with_at)
     if not want_async:
@@ -30,12 +44,27 @@ def build_case(cid, rng, selector, unimock=False):
         opts.append("delegate_by = %s" % selector)
     extra = rng.choice([[], [], ["?Send"] if False else [], ["mockall = false"], ["unimock = false"], ["debug = false"]])
     opts += extra
+    if no_send:
+        opts.append("?Send")
+    if force_async and not any(m.is_async for m in t.methods):
+        t.methods[0].is_async = True
+        t.methods[0].mgenerics = [(n_, b_ + ["::core::marker::Send"]) for n_, b_ in t.methods[0].mgenerics]
+        has_async = True
+        if dyn:
+            t.async_trait = t.async_trait or "#[::async_trait::async_trait]"
+            if "::core::marker::Sync" not in t.supers:
+                t.supers.append("::core::marker::Sync")
     rng.shuffle(opts)
     targs = t.args_text()
     L = tg.support_for(t.methods)
     L.append("#[::entrait::entrait(%s)] /*@inv*/" % ", ".join(opts))
     L.append(t.source())
     at = (t.async_trait + "\n") if t.async_trait else ""
+    if no_send and not t.async_trait:
+        # a provider whose futures are not Send: legal only because of `?Send`
+        for m in t.methods:
+            if m.is_async:
+                m.pre = "let __rc = ::std::rc::Rc::new(1u8); ::vrt::yield_once().await; let _ = *__rc;"
 
     import re
 
@@ -78,6 +107,15 @@ def build_case(cid, rng, selector, unimock=False):
         D.append('    ::vrt::fact("prov_addr", ::vrt::addr(&*app.inner)); ::vrt::fact("prov_tn", ::vrt::tn_of::<Prov>());')
         direct = "app.inner.{m}({args0})"
         right, wrong = "AppBorrow", "AppRef"
+    if probes and not t.async_trait:
+        L += probe_lines(t, tr, cid)
+        D.append("    __c12_probe(&app);")
+        for m in t.methods:
+            if m.is_async:
+                s1, e1, _d = m.call_args(50, "q")
+                D += ["    " + x for x in s1]
+                D.append('    { let fut = %s; ::vrt::fact("dout:%s", ::vrt::output_type_name(&fut)); }' % (
+                    direct.format(m=m.name, args="".join(", " + e for e in e1), args0=", ".join(e1)), m.name))
     D.append('    ::vrt::fact("avail_right", ::vrt::implements!(::entrait::Impl<%s>: %s));' % (right, tr))
     D.append('    ::vrt::fact("avail_nonprov", ::vrt::implements!(::entrait::Impl<NonProv>: %s));' % tr)
     D.append('    ::vrt::fact("avail_wrong_selector", ::vrt::implements!(::entrait::Impl<%s>: %s));' % (wrong if dyn else "AppRef", tr))
@@ -106,7 +144,8 @@ def build_case(cid, rng, selector, unimock=False):
     sigs = [m.trait_sig().replace(m.name, "") for m in t.methods]
     nt = len(t.methods) >= 2 or selector in ("ref", "Borrow") or any(
         any(a.type_text() == b.type_text() for a, b in zip(m.params, m.params[1:])) for m in t.methods)
-    meta = {"selector": selector, "calls": calls, "dyn": dyn, "notsync": notsync, "generic": t.generic, "nontrivial": nt,
+    meta = {"selector": selector, "calls": calls, "dyn": dyn, "notsync": notsync, "opts": opts, "async_trait": t.async_trait,
+            "async_methods": [m.name for m in t.methods if m.is_async], "no_send": no_send, "generic": t.generic, "nontrivial": nt,
             "methods": [m.trait_sig() for m in t.methods], "same_sig": len(set(sigs)) < len(sigs)}
     return Case(cid, "\n".join(L + D) + "\n", meta=meta)
 
